@@ -24,6 +24,8 @@ const (
 	SArrIB  // (Array Int Bool)
 	SArrIAI // (Array Int (Array Int Int))
 	SArrIAB // (Array Int (Array Int Bool))
+	SArrIAAI // (Array Int (Array Int (Array Int Int)))
+	SArrIAAB // (Array Int (Array Int (Array Int Bool)))
 )
 
 func (s Sort) String() string {
@@ -40,6 +42,10 @@ func (s Sort) String() string {
 		return "(Array Int (Array Int Int))"
 	case SArrIAB:
 		return "(Array Int (Array Int Bool))"
+	case SArrIAAI:
+		return "(Array Int (Array Int (Array Int Int)))"
+	case SArrIAAB:
+		return "(Array Int (Array Int (Array Int Bool)))"
 	}
 	return "?"
 }
@@ -54,6 +60,10 @@ func arrOf(s Sort) Sort {
 		return SArrIAI
 	case SArrIB:
 		return SArrIAB
+	case SArrIAI:
+		return SArrIAAI
+	case SArrIAB:
+		return SArrIAAB
 	}
 	panic("arrOf: unsupported sort " + s.String())
 }
@@ -68,6 +78,10 @@ func elemOf(s Sort) Sort {
 		return SArrII
 	case SArrIAB:
 		return SArrIB
+	case SArrIAAI:
+		return SArrIAI
+	case SArrIAAB:
+		return SArrIAB
 	}
 	panic("elemOf: not an array sort " + s.String())
 }
@@ -309,6 +323,7 @@ type PtrV struct {
 	ST   types.Type
 	FI   int
 	Idx  *T // PElem: index (absolute, includes slice offset); PCell: index into array leaf
+	Sub  *T // PElem whose element is a small array: index inside that element
 	Elem types.Type
 	Glob string
 }
